@@ -158,6 +158,43 @@ def monOp (op : String) (args : List String) : Option String :=
     let (fa, _) ← pNat ts
     some (if extra != 0 then "viol C11-create-exact" else if fc != fee then "viol C11-fee-routed"
           else if fa != aa then "viol C11-budget" else "ok")
+  | "mon_claim" => do
+    let (until_, ts) ← pNat args
+    let (cursor, ts) ← pOptNat ts
+    let (nlp, ts) ← pNat ts
+    let pHist : P (List (Nat × Nat)) := fun ts => do
+      let (n, ts) ← pNat ts
+      pRepeat (fun ts => do
+        let (e, ts) ← pNat ts
+        let (w, ts) ← pNat ts
+        pure ((e, w), ts)) n ts
+    let (lps, ts) ← pRepeat (fun ts => do
+      let (entry, ts) ← pNat ts
+      let (uh, ts) ← pHist ts
+      let (th, ts) ← pHist ts
+      let (nf, ts) ← pNat ts
+      let (fs, ts) ← pRepeat (fun ts => do
+        let (r, ts) ← pNat ts
+        let (s, ts) ← pNat ts
+        let (e, ts) ← pNat ts
+        let (d, ts) ← pTok ts
+        let (cd, ts) ← pNat ts
+        pure ((r, s, e, d, cd), ts)) nf ts
+      pure (({ entry := entry, uh := uh, th := th, farms := fs } : ClaimLp), ts)) nlp ts
+    let (nd, ts) ← pNat ts
+    let (paid, ts) ← pRepeat (fun ts => do
+      let (d, ts) ← pTok ts
+      let (g, ts) ← pInt ts
+      let (o, ts) ← pInt ts
+      pure ((d, g, o), ts)) nd ts
+    let (hasQ, ts) ← pBit ts
+    let (nq, ts) ← pNat ts
+    let (q, _) ← pRepeat (fun ts => do
+      let (d, ts) ← pTok ts
+      let (v, ts) ← pNat ts
+      pure ((d, v), ts)) nq ts
+    some (verdict (monClaim until_ cursor lps paid (if hasQ then some q else none)))
+  | "mon_claim_rejected" => some "viol C06-claim-blocked"
   | _ => none
 
 end MantraDex.Driver
